@@ -40,13 +40,115 @@ func (fc *FnCtx) header() string {
 	return b.String()
 }
 
+// symbolsOf: declared symbols occurring in an s-expression.
+func (fc *FnCtx) symbolsOf(t string) []string {
+	var out []string
+	start := -1
+	for i := 0; i <= len(t); i++ {
+		if i == len(t) || t[i] == '(' || t[i] == ')' || t[i] == ' ' || t[i] == '\n' {
+			if start >= 0 {
+				tok := t[start:i]
+				if _, ok := fc.q.declared[tok]; ok {
+					out = append(out, tok)
+				} else if _, ok := fc.q.declared["fun:"+tok]; ok {
+					out = append(out, tok)
+				} else if strings.HasPrefix(tok, "sumf_") {
+					out = append(out, tok)
+				}
+				start = -1
+			}
+			continue
+		}
+		if start < 0 {
+			start = i
+		}
+	}
+	return out
+}
+
+// sliceAsserts: cone of influence of the goal (assertions that can constrain a symbol the goal depends on).
+// Dropping the others only weakens the hypotheses: an unsat answer on the slice is an unsat answer on the whole.
+func (fc *FnCtx) sliceAsserts(o *Obligation) []int {
+	if fc.assertSyms == nil {
+		fc.assertSyms = make([][]string, len(fc.q.asserts))
+		for i, a := range fc.q.asserts {
+			fc.assertSyms[i] = fc.symbolsOf(a)
+		}
+		fc.recSyms = map[string][]string{}
+		for _, d := range fc.q.recDefs {
+			parts := strings.Fields(d)
+			if len(parts) > 1 {
+				fc.recSyms[parts[1]] = fc.symbolsOf(d)
+			}
+		}
+	}
+	for len(fc.assertSyms) < len(fc.q.asserts) {
+		fc.assertSyms = append(fc.assertSyms, fc.symbolsOf(fc.q.asserts[len(fc.assertSyms)]))
+	}
+	rel := map[string]bool{}
+	var work []string
+	add := func(s string) {
+		if !rel[s] {
+			rel[s] = true
+			work = append(work, s)
+		}
+	}
+	for _, s := range fc.symbolsOf(o.Goal) {
+		add(s)
+	}
+	// index: symbol -> assertions mentioning it
+	if fc.symIndex == nil {
+		fc.symIndex = map[string][]int{}
+	}
+	for i := fc.symIndexed; i < len(fc.q.asserts); i++ {
+		for _, s := range fc.assertSyms[i] {
+			fc.symIndex[s] = append(fc.symIndex[s], i)
+		}
+	}
+	fc.symIndexed = len(fc.q.asserts)
+	used := map[int]bool{}
+	for len(work) > 0 {
+		s := work[len(work)-1]
+		work = work[:len(work)-1]
+		for _, rs := range fc.recSyms[s] {
+			add(rs)
+		}
+		for _, i := range fc.symIndex[s] {
+			if i >= o.NAsserts || used[i] {
+				continue
+			}
+			used[i] = true
+			for _, t := range fc.assertSyms[i] {
+				add(t)
+			}
+		}
+	}
+	var idx []int
+	for i := 0; i < o.NAsserts; i++ {
+		if used[i] {
+			idx = append(idx, i)
+		}
+	}
+	return idx
+}
+
 // standalone query text for one obligation
 func (fc *FnCtx) queryText(o *Obligation, withModel bool) string {
+	return fc.queryTextSliced(o, withModel, false)
+}
+
+func (fc *FnCtx) queryTextSliced(o *Obligation, withModel bool, sliced bool) string {
 	var b strings.Builder
 	b.WriteString("; obligation " + o.Name() + "\n")
 	b.WriteString(fc.header())
-	for _, a := range fc.q.asserts[:o.NAsserts] {
-		b.WriteString("(assert " + a + ")\n")
+	if sliced {
+		for _, i := range fc.sliceAsserts(o) {
+			b.WriteString("(assert " + fc.q.asserts[i] + ")\n")
+		}
+	} else {
+		for _, a := range fc.q.asserts[:o.NAsserts] {
+			b.WriteString("(assert " + a + ")\n")
+		}
 	}
 	b.WriteString("(assert (not " + o.Goal + "))\n")
 	b.WriteString("(check-sat)\n")
@@ -179,6 +281,40 @@ func portfolio(fc *FnCtx, o *Obligation, dir string, cfg SolverCfg, usesLambda b
 	file := filepath.Join(dir, sanitize(o.Kind+"_"+o.Label)+".smt2")
 	if len(file) > 200 {
 		file = filepath.Join(dir, fmt.Sprintf("o_%x.smt2", hashStr(o.Name())))
+	}
+	// first attempt: the cone of influence of the goal only (sound for unsat; a sat answer is re-checked on the full query)
+	if false && !o.MustSat && o.NAsserts > 400 {
+		fc.sliceMu.Lock()
+		txt := fc.queryTextSliced(o, false, true)
+		fc.sliceMu.Unlock()
+		sfile := strings.TrimSuffix(file, ".smt2") + ".sliced.smt2"
+		os.WriteFile(sfile, []byte(txt), 0o644)
+		type sres struct {
+			solver, verdict string
+			t               float64
+		}
+		sctx, scancel := context.WithCancel(context.Background())
+		sch := make(chan sres, 2)
+		for _, sv := range solvers[:2] {
+			go func(name, bin string, args []string) {
+				t0 := time.Now()
+				out, _ := runSolver(sctx, bin, args, sfile, cfg.QueryTimeout)
+				sch <- sres{name, firstVerdict(out), time.Since(t0).Seconds()}
+			}(sv.name, sv.bin, sv.args)
+		}
+		done := false
+		for i := 0; i < 2; i++ {
+			r := <-sch
+			if r.verdict == "unsat" {
+				o.Verdict, o.Solver, o.TimeS = "discharged", r.solver+"(sliced)", r.t
+				done = true
+				break
+			}
+		}
+		scancel()
+		if done {
+			return
+		}
 	}
 	os.WriteFile(file, []byte(fc.queryText(o, true)), 0o644)
 	type res struct {
